@@ -2,12 +2,16 @@ use crate::report::Ctx;
 pub mod c07;
 pub mod c08;
 pub mod c09;
+pub mod c11;
+pub mod c17;
 
 pub fn lookup(name: &str) -> Option<fn(&mut Ctx)> {
     match name {
         "C07" => Some(c07::run),
         "C08" => Some(c08::run),
         "C09" => Some(c09::run),
+        "C11" => Some(c11::run),
+        "C17" => Some(c17::run),
         _ => None,
     }
 }
